@@ -504,6 +504,17 @@ def _socksport_address(socks_config):
     return socks_config.split()[0] if socks_config else socks_config
 
 
+def _socksport_usable(socks_config):
+    """
+    Internal helper. False for entries that are not a listener ("0",
+    "addr:0") .
+    """
+    addr = _socksport_address(socks_config)
+    if addr.startswith('unix:'):
+        return True
+    return addr.rsplit(':', 1)[-1] != '0'
+
+
 def _endpoint_from_socksport_line(reactor, socks_config):
     """
     Internal helper.
@@ -647,14 +658,15 @@ class TorConfig:
         :meth:`txtorcon.TorConfig.create_socks_endpoint`
         """
 
-        if len(self.SocksPort) == 0:
+        ports = [p for p in self.SocksPort if _socksport_usable(p)]
+        if len(ports) == 0:
             raise RuntimeError(
                 "No SOCKS ports configured"
             )
 
         socks_config = None
         if port is None:
-            socks_config = self.SocksPort[0]
+            socks_config = ports[0]
         else:
             port = str(port)  # in case e.g. an int passed in
             if ' ' in port:
@@ -662,7 +674,7 @@ class TorConfig:
                     "Can't specify options; use create_socks_endpoint instead"
                 )
 
-            for idx, port_config in enumerate(self.SocksPort):
+            for idx, port_config in enumerate(ports):
                 # "SOCKSPort" is a gnarly beast that can have a bunch
                 # of options appended, so we have to split off the
                 # first thing which *should* be the port (or can be a
@@ -704,11 +716,12 @@ class TorConfig:
         yield self.post_bootstrap
 
         if socks_config is None:
-            if len(self.SocksPort) == 0:
+            ports = [p for p in self.SocksPort if _socksport_usable(p)]
+            if len(ports) == 0:
                 raise RuntimeError(
                     "socks_port is None and Tor has no SocksPorts configured"
                 )
-            socks_config = self.SocksPort[0]
+            socks_config = ports[0]
         else:
             wanted = _socksport_address(socks_config)
             if not any([wanted == _socksport_address(port) for port in self.SocksPort]):
